@@ -57,7 +57,7 @@ Next == x' = x
                      "pcm": {"signal": rnd.choice(adversarial), "seed": rnd.randint(1, 10 ** 6), "frames": frames}, "tag": "adversarial"})
     # constant blocks of many lengths
     for length in ([1, 2, 15, 16, 17, 100, 4096, 4097, 65535] if t == "quick" else list(range(1, 40)) + [100, 1000, 4096, 4097, 10000, 65535, 70000]):
-        for sig in ("const", "zero"):
+        for sig in ("const", "zero", "constlo", "consthi", "constm1", "constpow"):
             ch = rnd.choice([1, 2, 4])
             bs = rnd.choice([16, 4096, 65535])
             jobs.append({"fe": rnd.choice(corpus.FES), "rate": 44100, "bps": rnd.choice([8, 16, 24, 32]), "channels": ch,
